@@ -162,8 +162,20 @@ def _abbrev(mod, case):
     return json.loads(s) if len(s) < 1500 else s[:1500] + "..."
 
 
+def _quiet_fds():
+    """The native thrift parser reports corrupt input with printf, possibly without end: children do not share the
+    check's stdout (results travel through files and pipes)."""
+    try:
+        dn = os.open(os.devnull, os.O_WRONLY)
+        os.dup2(dn, 1)
+        os.close(dn)
+    except OSError:
+        pass
+
+
 def _shard_main(modname, tier, kind, shard, nshards, seed, n_examples, deadline, respath, curpath):
     try:
+        _quiet_fds()
         common.bootstrap()
         mod = importlib.import_module(modname)
         res = ShardResult()
@@ -254,16 +266,19 @@ class _PipeReader:
         return out
 
 
-def run_in_child(mod, cases, timeout=900):
+def run_in_child(mod, cases, timeout=900, deadline=None, stop_on_hang=False):
     """Evaluate cases in a forked child (one child for the whole list; a new one after a crash) so that a
     case that kills the interpreter cannot kill the check itself.  Returns outcomes in order."""
     results = [None] * len(cases)
     start = 0
     while start < len(cases):
+        if deadline is not None and time.time() > deadline:
+            break           # (cases not reached keep the outcome None)
         r, w = os.pipe()
         pid = os.fork()
         if pid == 0:
             os.close(r)
+            _quiet_fds()
             try:
                 with os.fdopen(w, "wb") as f:
                     for i in range(start, len(cases)):
@@ -303,6 +318,8 @@ def run_in_child(mod, cases, timeout=900):
             results[last_started] = viol("hang", "case did not finish within %d s (stuck outside the interpreter; the child was killed)"
                                          % (CASE_TIMEOUT_S + 90))
             start = last_started + 1
+            if stop_on_hang:
+                break
         elif last_started is not None and results[last_started] is None:
             san = san_report(pid)
             code = -(status & 0x7f) if (status & 0x7f) else (status >> 8)
@@ -535,8 +552,18 @@ def shrink(mod, case, sig, budget_s, isolated=False, runner=None):
         if not batch:
             break
         # candidates are evaluated in a forked child: one of them may crash the interpreter
-        outs = [runner(c) for c in batch] if runner else run_in_child(mod, batch)
+        if runner:
+            outs = []
+            for c in batch:
+                if time.time() > deadline:
+                    break
+                outs.append(runner(c))
+        else:
+            # (a candidate that hangs in native code costs minutes: shrinking stops there)
+            outs = run_in_child(mod, batch, deadline=deadline, stop_on_hang=True)
         for cand, out in zip(batch, outs):
+            if out is None:
+                continue
             if out["st"] == "viol" and out["sig"] == sig:
                 best = cand
                 steps += 1
